@@ -283,6 +283,25 @@ func NewKernel(ctx context.Context, log *slog.Logger, cfg KernelConfig) (*Kernel
 		}
 	}
 
+	// The same applies to stored votes for the next round that make the mirror skip ahead.
+	if nrvs := initState.NextRound.VoteSummary; nrvs.AvailablePower > 0 {
+		min := tmconsensus.ByzantineMinority(nrvs.AvailablePower)
+		if nrvs.TotalPrevotePower >= min || nrvs.TotalPrecommitPower >= min {
+			if err := k.jumpVotingRound(ctx, &initState, initState.NextRound.Round); err != nil {
+				return nil, fmt.Errorf(
+					"cannot initialize mirror kernel: failed to apply stored next round votes: %w", err,
+				)
+			}
+			if len(initState.Voting.PrecommitProofs) > 0 {
+				if err := k.checkVotingPrecommitViewShift(ctx, &initState); err != nil {
+					return nil, fmt.Errorf(
+						"cannot initialize mirror kernel: failed to apply stored precommits: %w", err,
+					)
+				}
+			}
+		}
+	}
+
 	if err := k.updateObservers(ctx, &initState); err != nil {
 		return nil, err
 	}
